@@ -14,6 +14,13 @@ CoverShapes ==
     <<"empty-action/with-other-rules", Prog(<<T1(<<c_b>>)>>, <<Rule(Bin("==", V("NR"), N(1)), <<>>), Rule(NoE, <<SPrint(<<V("NR")>>)>>)>>, <<T1(<<c_e>>)>>, <<>>), << <<c_a>>, <<c_b>> >> >>,
     <<"empty-begin-and-end", Prog(<<>>, <<Rule(NoE, <<SPrint(<<V("NR")>>)>>)>>, <<>>, <<>>), << <<c_a>> >> >>,
     <<"pattern-only", Prog(<<>>, <<RuleNoBody(Bin("==", V("NR"), N(2))), Rule(NoE, <<SExpr(Inc("++", FALSE, V("n")))>>)>>, <<SPrint(<<V("n")>>)>>, <<>>), << <<c_a>>, <<c_b>>, <<c_c>> >> >>,
+    <<"all-sections-and-functions",
+      Prog(<<T1(<<c_b>>), SExpr(Asg(V("n"), Call("f", <<N(2)>>)))>>,
+           <<Rule(NoE, <<SExpr(Aug("+", V("n"), Call("g", <<V("NR")>>)))>>), Rule(Bin("==", V("NR"), N(2)), <<T1(<<c_r>>), SExpr(Call("f", <<N(1)>>))>>)>>,
+           <<SPrint(<<V("n")>>)>>,
+           <<Func("f", <<Param("p")>>, <<SWhile(Bin(">", V("p"), N(0)), <<SExpr(Inc("--", FALSE, V("p"))), SExpr(Inc("++", FALSE, V("c")))>>), SRet(V("c"))>>),
+             Func("g", <<Param("p")>>, <<SIf(Bin("==", V("p"), N(1)), <<SRet(N(10))>>, <<>>), SRet(N(1))>>)>>),
+      << <<c_a>>, <<c_b>>, <<c_c>> >> >>,
     <<"empty-function", Prog(<<SExpr(Call("f", <<>>)), T1(<<c_x>>)>>, <<>>, <<>>, <<Func("f", <<>>, <<>>)>>), <<>> >>,
     <<"else-if-chain",
       Prog(<<>>, <<Rule(NoE, <<SIf(Bin("==", V("NR"), N(1)), <<T1(<<D1>>)>>,
